@@ -275,6 +275,12 @@ def doScan (hdr vals : List Nat) : String :=
     | none => "bad-op"
   | _ => "bad-op"
 
+/-- `fit | rhobeg rhoend maxRadius` : `Interpolation.__init__` fitting the radii to the box; answer `radius_init,radius_final` bits -/
+def doFit (vals : List Nat) : String :=
+  match vals with
+  | [rb, re, mr] => let r := fitRadii (fl rb) (fl re) (fl mr); s!"{bits r.1},{bits r.2}"
+  | _ => "bad-op"
+
 /-- `remove best | w s w s ...` : `get_index_to_remove(x_new)`; answer the index -/
 def doRemove (hdr vals : List Nat) : String :=
   match hdr with
@@ -479,6 +485,7 @@ def handle (line : String) : String :=
         | "splitlin" => doSplitLin vals
         | "splitnl" => doSplitNl hdr vals
         | "remove" => doRemove hdr vals
+        | "fit" => doFit vals
         | _ => "bad-op"
       | _, _ => "bad-op"
     | [] => "bad-op"
